@@ -106,8 +106,16 @@ def run_chains(ctx: Ctx):
             xt = {f'x{k}': L + rs.rand(20) for k in range(depth)}
             yt = system.predict(xt, use_model='best', normalized_inputs=False)
             test_set = (xt, {k: np.asarray(v) for k, v in yt.items()})
+        import c04b
+        cvars = {str(k_): v_ for k_, v_ in system.coupling_variables().items()}
+        guesses = {k_: tuple(map(float, v_.get_domain())) for k_, v_ in cvars.items()}
+        kinds = {k_: c04b.kind_of(v_) for k_, v_ in cvars.items()}
+        est_obs = {k_: c04b.obs_list(np.asarray(v_.normalize(test_set[1][k_]), dtype=float)) for k_, v_ in cvars.items()} if test_set is not None else None
+        rec = c04b.BoundsRecorder(system)
         try:
-            system.fit(max_iter=10 ** 3, num_refine=30, max_tol=-1.0, update_bounds=ub, estimate_bounds=eb, test_set=test_set)
+            with rec:
+                system.fit(max_iter=10 ** 3, num_refine=30, max_tol=-1.0, update_bounds=ub, estimate_bounds=eb, test_set=test_set)
+            c04b.add_case(ctx, case, system, rec, guesses, kinds, est_obs if eb else None, ub)
         except Exception as e:
             # with minmax and moving bounds the re-interpreted data (finding F6) can also drive a coupling domain to (-inf, nan)
             ctx.violate('C04:chain-not-exact:minmax' if (norm == 'minmax' and (ub or eb)) else 'C04:training-raises', f'{type(e).__name__}: {e}', case); continue
@@ -177,6 +185,48 @@ def run_chains(ctx: Ctx):
             else:
                 continue
             break
+
+
+def run_centred_targets(ctx: Ctx):
+    """x -> y1 -> y2 trained for the final output only, the guess for y1's domain centred on f1(centre of x): at the start every
+    candidate of every component changes the target by exactly zero (the first component's candidates feed a still-constant second
+    one, whose own candidates are evaluated on its centre node); training to exhaustion must still go on and end exact"""
+    from amisc import Component, System, Variable
+    rng = ctx.rng
+    for n in range(ctx.pick(3, 12)):
+        a, b = rng.randint(1, 3), rng.randint(1, 2)
+        c, d = rng.randint(1, 3), rng.randint(1, 2)
+        half = [0.5, 2.5, 5.0][n % 3]
+
+        def f1(inputs, _a=a, _b=b):
+            x = np.asarray(inputs['x'], dtype=float)
+            return {'y1': _a * x + _b * 0.5 * x ** 3}
+
+        def f2(inputs, _c=c, _d=d):
+            y = np.asarray(inputs['y1'], dtype=float)
+            return {'y2': 1 + _d * 0.0625 * y ** 4 - _c * y}
+        mid = a * 1.0 + b * 0.5
+        system = System(Component(f1, [Variable('x', distribution='U(-1, 3)')], [Variable('y1', domain=(mid - half, mid + half))], name='c1', vectorized=True, data_fidelity=(2,)),
+                        Component(f2, [Variable('y1', domain=(mid - half, mid + half))], [Variable('y2')], name='c2', vectorized=True, data_fidelity=(2,)), name='c04t')
+        case = {'centred_chain': n, 'coeffs': [a, b, c, d], 'guess_half_width': half, 'targets': ['y2']}
+        ctx.case(case, nontrivial=True, kind='chain:centred-guess:last-output-only')
+        np.random.seed(ctx.seed * 31 + n)
+        try:
+            system.fit(targets=['y2'], max_iter=200, max_tol=-1.0)
+        except Exception as e:
+            ctx.violate('C04:training-raises', f'{type(e).__name__}: {e}', case); continue
+        left = {cc.name: len(cc.candidate_set) for cc in system.components}
+        if any(left.values()):
+            ctx.violate('C04:not-exhausted', f'fit(targets=["y2"]) stopped after {len(system.train_history)} steps with candidates left: {left}', case); continue
+        xs = np.linspace(-1, 3, 41)
+        y = system.predict({'x': xs}, normalized_inputs=False)
+        for j, xv in enumerate(xs):
+            X = Fraction(float(xv)); y1 = a * X + Fraction(b, 2) * X ** 3; y2 = 1 + Fraction(d, 16) * y1 ** 4 - c * y1
+            for name, ref in (('y1', y1), ('y2', y2)):
+                got = float(np.ravel(y[name])[j])
+                if not (got == got and abs(Fraction(got) - ref) <= Fraction(1, 10 ** 7) * (abs(ref) + 10)):
+                    ctx.violate('C04:chain-not-exact', f'{name} at x={float(xv)}: surrogate {got}, exact composition {float(ref)} (trained for y2 only, centred guess)', {**case, 'x': float(xv)})
+                    break
 
 
 def run_loops(ctx: Ctx):
@@ -274,8 +324,12 @@ def run(ctx: Ctx):
                 'refinements versus Model/Lagr.v refine1 and the interpolation polynomial; non-trivial = depth >= 2 / a grid that grows while the domain changes')
     ctx.flines, ctx.fmeta = [], []
     run_weights(ctx)
+    ctx.flines_b, ctx.fmeta_b = [], []
     run_chains(ctx)
     run_loops(ctx)
+    run_centred_targets(ctx)
+    import c04b
+    c04b.compare(ctx, run_model)
     for (case, yimpl), mo in zip(ctx.fmeta, run_model(ctx.flines, shards=8) if ctx.flines else []):
         ctx.count('chain_evaluations_compared')
         if isinstance(mo, ModelError):
